@@ -72,8 +72,8 @@ Resync(e) ==
       nid |-> IF exp.nid > MaxId(e) THEN exp.nid ELSE MaxId(e) + 1]
 
 TInit == /\ l = 1 /\ cur = InitSt /\ wit = {} /\ pp = <<>> /\ hp = FALSE
-         /\ np = {"base", "A", "B", "G"}
-         /\ pd = [v |-> "val1", items |-> <<"n1", "n2">>, c |-> TRUE]
+         /\ np = NamePool
+         /\ pd = ProbeData
 
 TReset == /\ l <= Len(Trace) /\ Trace[l].ev = "reset"
           /\ cur' = InitSt /\ pp' = <<>> /\ hp' = FALSE /\ l' = l + 1
@@ -90,10 +90,65 @@ TStep == /\ l <= Len(Trace) /\ Trace[l].ev = "step"
                    /\ UNCHANGED <<np, pd>>
          /\ l' = l + 1
 
+\* ---- concurrent runs: linearisability against the reference machine ---------------------
+NormSeq(ops) == [i \in 1..Len(ops) |-> Norm(ops[i])]
+RECURSIVE RunAll(_, _)
+RunAll(s, ops) == IF ops = <<>> THEN s ELSE RunAll(Apply(s, ops[1]), Tail(ops))
+
+\* call c explained by the reference machine in state s
+CallOK(s, c) ==
+  LET op == Norm(c.op) IN
+    /\ c.ret = Ret(s, op)
+    /\ (op.op = "Render" => c.res = RenderRet(s, op))
+
+FinalOK(s, e) ==
+  \A n \in SeqToSet(e.names), en \in Entries :
+     Probed(e.final[n][en]) => e.final[n][en] = PureRender(Lookup(s.cache, n), e.pdata, en)
+
+\* some order of the remaining calls that respects real time (a call that ended before another
+\* began comes first) is a run of the reference machine producing exactly what was observed
+RECURSIVE Lin(_, _, _)
+Lin(s, rem, e) ==
+  IF rem = {} THEN FinalOK(s, e)
+  ELSE \E i \in rem :
+         /\ ~\E j \in rem : j # i /\ e.calls[j].e < e.calls[i].b
+         /\ CallOK(s, e.calls[i])
+         /\ Lin(Apply(s, Norm(e.calls[i].op)), rem \ {i}, e)
+
+ConcOps(e) == SeqToSet(e.setup) \cup {e.calls[i].op : i \in 1..Len(e.calls)}
+ConcClass(e) == IF \E o \in ConcOps(e) : o.op = "Load" /\ o.def.ext # "" THEN "inherit" ELSE "flat"
+
+\* which kinds of calls of different threads overlapped in real time ("sequential" if none did)
+Desc(c) == IF c.op.op = "Load" THEN "Load:" \o c.op.def.k
+           ELSE IF c.op.op = "Render" THEN "Render:" \o c.op.e ELSE c.op.op
+Vocab == <<"Load:str", "Load:doc", "Render:doc", "Render:tpl", "Remove", "Clear", "Get", "Validate", "SetBasePath">>
+Overlapped(e) ==
+  {Desc(e.calls[i]) : i \in {k \in 1..Len(e.calls) :
+      \E j \in 1..Len(e.calls) : /\ e.calls[j].t # e.calls[k].t
+                                  /\ ~(e.calls[j].e < e.calls[k].b \/ e.calls[k].e < e.calls[j].b)}}
+RECURSIVE JoinBar(_)
+JoinBar(ss) == IF ss = <<>> THEN "" ELSE IF Len(ss) = 1 THEN ss[1] ELSE ss[1] \o "|" \o JoinBar(Tail(ss))
+OverlapClass(e) == LET S == Overlapped(e) IN
+                   IF S = {} THEN "sequential" ELSE JoinBar(SelectSeq(Vocab, LAMBDA x : x \in S))
+
+JudgeConc(e) ==
+  LET s0 == RunAll(InitSt, NormSeq(e.setup)) IN
+      {<<"race", ConcClass(e), e.races[i]>> : i \in 1..Len(e.races)}
+      \cup (IF e.fatal # "" THEN {<<"race", ConcClass(e), "fatal: " \o e.fatal>>} ELSE {})
+      \cup (IF e.stuck THEN {<<"deadlock", e.mode>>} ELSE {})
+      \cup {<<"panic", "concurrent", e.calls[i].op.op>> : i \in {j \in 1..Len(e.calls) : e.calls[j].ret = "panic"}}
+      \cup (IF ~e.stuck /\ e.fatal = "" /\ ~Lin(s0, 1..Len(e.calls), e)
+            THEN {<<"not-linearizable", e.mode, ConcClass(e), OverlapClass(e)>>} ELSE {})
+
+TConc == /\ l <= Len(Trace) /\ Trace[l].ev = "conc"
+         /\ wit' = AddWit(wit, Tag(JudgeConc(Trace[l])), Trace[l].case)
+         /\ l' = l + 1
+         /\ UNCHANGED <<cur, np, pd, pp, hp>>
+
 TDone == /\ l = Len(Trace) + 1
          /\ PrintT(<<"WZDONE", l - 1, ToJson(wit)>>)
          /\ l' = l + 1 /\ UNCHANGED <<cur, np, pd, pp, hp, wit>>
 
-TNext == TReset \/ TStep \/ TDone
+TNext == TReset \/ TStep \/ TConc \/ TDone
 TSpec == TInit /\ [][TNext]_tvars
 =============================================================================
